@@ -105,16 +105,23 @@ impl ClientVisibility {
     }
 
     /// Removes a despawned entity tracked by this client.
-    pub(super) fn remove_despawned(&mut self, entity: Entity) {
+    ///
+    /// Returns `true` if the entity was blacklisted during this tick,
+    /// which means the client still has it and needs to be notified about the despawn.
+    pub(super) fn remove_despawned(&mut self, entity: Entity) -> bool {
         let removed = match &mut self.list {
             VisibilityList::Blacklist(list) => list.remove(&entity).is_some(),
             VisibilityList::Whitelist(list) => list.remove(&entity).is_some(),
         };
 
+        let mut just_lost = false;
         if removed {
-            self.added.remove(&entity);
+            let just_added = self.added.remove(&entity);
             self.removed.remove(&entity);
+            just_lost = just_added && matches!(self.list, VisibilityList::Blacklist(_));
         }
+
+        just_lost
     }
 
     /// Drains all entities for which visibility was lost during this tick.
